@@ -9,9 +9,9 @@ let rec take n l = if n <= 0 then [] else match l with [] -> [] | x :: r -> x ::
 let rec drop n l = if n <= 0 then l else match l with [] -> [] | _ :: r -> drop (n-1) r
 let show_view (v : view) body =
   let post = if is_urlencoded v.v_ctype then parse_post_form body else [] in
-  Printf.sprintf "OK M=%s;S=%s;P=%s;Q=%s;CT=%s;CL=%d;E=%s;G=%s;O=%s;B=%s"
+  Printf.sprintf "OK M=%s;S=%s;P=%s;Q=%s;CT=%s;CL=%d;E=%s;G=%s;O=%s;B=%s;K=%s"
     (b v.v_method) (b v.v_script) (b v.v_path_info) (b v.v_query) (b v.v_ctype) (int_of_z v.v_clen)
-    (pairs v.v_env) (pairs (parse_form v.v_query)) (pairs post) (b body)
+    (pairs v.v_env) (pairs (parse_form v.v_query)) (pairs post) (b body) (pairs (cookies_of_env v.v_env))
 let cl_limit_i = 1024 * 1024
 let rec nat_of_int n = if n <= 0 then O else S (nat_of_int (n - 1))
 (* the whole connection is the extracted Conn.http_conn (chunk-level; Props.v: equal to the stream-level http_stream) *)
